@@ -38,7 +38,6 @@ RULES = {
 LOADER = "offset cursor advanced by header-derived amounts / fixed record sizes without re-checking the remaining length"
 RULES["C02"] = [
   # ---- LOAD-specific, genuine (truncated / corrupted files)
-  ("layer::Layer::from_clipboard_data|", "known", "clipboard payload shorter than the 17-byte header or than width*height*14 cell bytes: no length check at all (data[0], data[1..5] .. data[13..17], per-cell data[0..13])"),
   ("IcyDraw as formats::OutputFormat>::load_buffer|S5|", "reviewed", "the todo!() arms are for Role::PastePreview / Role::PasteImage in the continuation-chunk match; a layer created by this loader only ever gets Role::Image (role byte 1) or Role::Normal, so they are unreachable"),
   ("as Ok).0, RangeFrom{o}) #lower", "reviewed", "FONT_n chunk: o is the size returned by read_utf8_encoded_string, whose own slice data[4..4 + len] has already succeeded on the same bytes, so o <= bytes.len()"),
   ("IcyDraw as formats::OutputFormat>::load_buffer|S2|index(&(decode(", "known", "decoded zTXt chunk shorter than the fields read from it: the LAYER_n record (title, role, mode, colour, flags, offsets, sizes; image layers: four more u32) and the per-cell records of LAYER_n~k continuation chunks are read with bytes[o] / bytes[o..o+2/4/8] and no length check; the short-cell check `o + 3 > len` is one byte too small"),
@@ -46,16 +45,8 @@ RULES["C02"] = [
   ("IcyDraw as formats::OutputFormat>::load_buffer|S2|index_mut(&*index_mut(&result.layers", "reviewed", "continuation chunk of an image layer: a layer has Role::Image only if it was created by the role == 1 branch of this loader, which pushes exactly one Sixel before storing the layer"),
   ("IcyDraw as formats::OutputFormat>::load_buffer|S2|index(&*data, RangeFrom{len})", "reviewed", "len is the number of bytes the streaming PNG decoder reports as consumed from data (<= data.len())"),
   ("formats::icy_draw::read_utf8_encoded_string|", "known", "string length prefix larger than the rest of the chunk (or chunk shorter than 4 bytes): data[0..4], data[4..4+size]"),
-  ("TundraDraw as formats::OutputFormat>::load_buffer|S1|bounds(len(data), o)", "known", "Tundra record truncated after its command byte: data[o] read after o += 1 / o += 4 without re-checking (e.g. '\\x18TUNDRA24\\x02')"),
-  ("formats::tundra::to_u32|", "known", "Tundra colour / position record with fewer than 4 bytes left: to_u32(&data[o..]) reads bytes[0..=3]"),
-  ("XBin as formats::OutputFormat>::load_buffer|S2|index(&*data, Range{o, (o + 48)})", "known", "XBIN header with the palette flag and fewer than 48 bytes after it"),
-  ("XBin as formats::OutputFormat>::load_buffer|S2|index(&*data, Range{o, (o + ((font_size", "known", "XBIN header with the font flag and fewer than font_size*256 bytes after it"),
-  ("formats::xbinary::read_data_compressed|S1|bounds(len(bytes), o)", "known", "compressed XBin run header at the last byte: bytes[o] read right after o += 1 in the Char/Attr/Full arms"),
   ("IceDraw as formats::OutputFormat>::load_buffer|S2|index(&*data, Range{o, (o + 48)})", "reviewed", "len >= header + 4096 + 48 is checked first; the cell loop runs while o + 1 < data_size (= len - 4096 - 48) and advances by 2 (or, behind `o + 3 < data_size`, by 4), so it ends with o <= data_size; the font slice takes 4096 more: o + 48 <= len"),
   ("load_buffer|S4|unwrap(from_bytes('', &*", "reviewed", "BitFont::from_bytes on an embedded font constant (include_bytes! of a PSF/raw font shipped with the crate): the bytes are a valid font, so the Result is Ok"),
-  ("TundraDraw as formats::OutputFormat>::load_buffer|S2|index(&*data, RangeFrom{o})", "reviewed", "o <= len at both slices: the first follows `o < len; o += 1`, the second follows to_u32(&data[o..]) reading bytes[3] of that slice (o + 4 <= len, else it panics there: known finding tundra::to_u32) and `o += 4`"),
-  ("palette_handling::Palette::load_palette|S5|", "known", "PaletteFormat::Ase reaches todo!()"),
-  ("tdf_font::TheDrawFont::from_tdf_bytes|", "known", "TDF file truncated inside a font header / glyph table / glyph: " + LOADER),
   ("sauce_mod::SauceString::<LEN, EMPTY>::read|", "reviewed", "read is only called from SauceData::extract on &data[o..] with o = len-128 + the fixed field offsets (record fields sum to 128 and len >= 128 is checked first), and on 64-byte comment lines inside the comment block whose start is checked by the signed guard"),
   ("sauce_mod::SauceData::extract|S5|assert_failed", "reviewed", "o = len - 128 + the sum of the fixed field sizes (= 128): the assertion is an identity"),
   ("sauce_mod::SauceData::extract|", "reviewed", "after `data.len() < SAUCE_LEN -> return`, o runs from len-128 over the 128 fixed-size fields; the comment block start (len-128) - 64n - 5 is checked non-negative by the signed guard before data[o..o+5]"),
